@@ -60,6 +60,11 @@ func (p *Poller) Next() GenericDataType {
 		data, ok := p.Diode.TryNext()
 		if !ok {
 			if p.isDone() {
+				// A value may have been set between the TryNext above and the
+				// cancellation: look once more so that it is not lost.
+				if data, ok = p.Diode.TryNext(); ok {
+					return data
+				}
 				return nil
 			}
 
